@@ -25,9 +25,25 @@ func checkC07(c *Ctx) {
 	c.Rule("C07.R1", "no make length/capacity (or map reserve) reachable from wkb.Read/Decode, hex.Decode is input-derived (stored by encoding/binary.Read) unless bounded: clamped by a dominating comparison, min, or a helper all of whose returns are bounded")
 	c.Rule("C07.R2", "every may-panic construct (explicit panic, single-result type assertion, index/slice expression) reachable from a decoder entry point is statically safe or only reachable below a frame whose deferred function recovers and sets the error result; every value passed to panic below that frame implements error")
 	c.Rule("C07.R3", "in decoder functions a value returned together with an error is not asserted, dereferenced, indexed, method-called or returned with a nil error before that error is tested")
+	c.Rule("C07.R4", "premise of the re-encode clause: WKB writer and reader format trees and code tables agree (a count written is the number of members written, members go through Write/Read), so a value the decoder returned re-encodes to a message the decoder accepts")
 	c07taint(c)
 	c07panics(c)
 	c07errflow(c)
+	// R4: what the decoder accepts, the encoder writes back in a form the decoder accepts again
+	// (writer and reader layouts and code tables agree) — C05's layout analysis, filed here
+	if pk := c.P.Pkg("encoding/wkb"); pk != nil {
+		a5 := &c05{c: c, info: pk.TypesInfo, write: c.P.Func("encoding/wkb", "Write"), read: c.P.Func("encoding/wkb", "Read"), readers: map[int64]*types.Func{}}
+		if c.P.Decl(a5.write) != nil && c.P.Decl(a5.read) != nil {
+			c.Alias("C05.R1", "C07.R4")
+			c.Alias("C05.R3", "C07.R4")
+			a5.tables()
+			a5.layoutWriters()
+			a5.layoutReaders()
+			c.Alias("C05.R1", "")
+			c.Alias("C05.R3", "")
+		}
+	}
+	c.Floor("C07.R4", 20)
 	c.Floor("C07.R1", 6)
 	c.Floor("C07.R2", 20)
 	c.Floor("C07.R3", 8)
